@@ -1,0 +1,62 @@
+//go:build verif
+
+package verifspec
+
+// Contracts for the build-constraint environment handed to go/build (property C18).
+
+// goCtx: user tags first, then exactly the four always-on tags; gc compiler; no cgo; release tags go1.1 .. go1.20
+// (the supported Go version, README/doc/compatibility.md) taken from the host's default list.
+//@ func build.goCtx
+//@ property C18
+//@   initval build.defaultBuildTags
+//@   requires len(global("go/build.Default").ReleaseTags) >= 20
+//@   ensures result != nil
+//@   ensures result.bctx.GOROOT == e.GOROOT && result.bctx.GOPATH == e.GOPATH && result.bctx.GOOS == e.GOOS && result.bctx.GOARCH == e.GOARCH
+//@   ensures result.bctx.InstallSuffix == e.InstallSuffix
+//@   ensures result.bctx.Compiler == "gc" && !result.bctx.CgoEnabled && !result.isVirtual
+//@   ensures len(result.bctx.BuildTags) == len(e.BuildTags) + 4
+//@   ensures forall(k, 0, len(e.BuildTags), result.bctx.BuildTags[k] == e.BuildTags[k])
+//@   ensures result.bctx.BuildTags[len(e.BuildTags)] == "netgo" && result.bctx.BuildTags[len(e.BuildTags)+1] == "purego"
+//@   ensures result.bctx.BuildTags[len(e.BuildTags)+2] == "math_big_pure_go" && result.bctx.BuildTags[len(e.BuildTags)+3] == "gopherjs"
+//@   ensures len(result.bctx.ReleaseTags) == 20
+//@   ensures forall(k, 0, 20, result.bctx.ReleaseTags[k] == global("go/build.Default").ReleaseTags[k])
+
+// isStd is file-system dependent; it is left abstract (assumed deterministic).
+//@ pure isStdP(importPath int, srcDir int) bool
+//@ extern build.simpleCtx.isStd
+//@   param sc importPath srcDir
+//@   assigns nothing
+//@   ensures result == isStdP(str(importPath), str(srcDir))
+
+// applyPreloadTweaks: standard-library packages are selected as for js/wasm, everything else with the context's own
+// GOOS/GOARCH; nothing else in the build context changes.
+//@ func build.simpleCtx.applyPreloadTweaks
+//@ property C18
+//@   results bctx outmode
+//@   ensures isStdP(str(importPath), str(srcDir)) ==> bctx.GOOS == "js" && bctx.GOARCH == "wasm"
+//@   ensures !isStdP(str(importPath), str(srcDir)) ==> bctx.GOOS == sc.bctx.GOOS && bctx.GOARCH == sc.bctx.GOARCH
+//@   ensures bctx.Compiler == sc.bctx.Compiler && bctx.CgoEnabled == sc.bctx.CgoEnabled && bctx.GOROOT == sc.bctx.GOROOT && bctx.GOPATH == sc.bctx.GOPATH
+//@   ensures len(bctx.BuildTags) == len(sc.bctx.BuildTags) && samearr(bctx.BuildTags, sc.bctx.BuildTags)
+//@   ensures len(bctx.ReleaseTags) == len(sc.bctx.ReleaseTags) && samearr(bctx.ReleaseTags, sc.bctx.ReleaseTags)
+//@   ensures bctx.InstallSuffix == sc.bctx.InstallSuffix
+
+//@ pure envval(k string) seq
+//@ extern os.Getenv
+//@   param key
+//@   ensures seq(result) == envval(key)
+
+// DefaultEnv: GOOS=js / GOARCH=ecmascript unless the environment says otherwise.
+//@ func build.DefaultEnv
+//@ property C18
+//@   ensures envval("GOOS") != empty() ==> seq(result.GOOS) == envval("GOOS")
+//@   ensures envval("GOOS") == empty() ==> result.GOOS == "js"
+//@   ensures envval("GOARCH") != empty() ==> seq(result.GOARCH) == envval("GOARCH")
+//@   ensures envval("GOARCH") == empty() ==> result.GOARCH == "ecmascript"
+//@   ensures len(result.BuildTags) == 0
+
+// versionhack.init: go/build's notion of the default release tags is the same go1.1 .. go1.20 list.
+//@ func build/versionhack.init
+//@ property C18
+//@   requires len(global("go/build.Default").ReleaseTags) >= 20
+//@   ensures len(global("build/versionhack.releaseTags")) == 20
+//@   ensures forall(k, 0, 20, global("build/versionhack.releaseTags")[k] == old(global("go/build.Default")).ReleaseTags[k])
